@@ -1,6 +1,7 @@
 import SimbodyModel.C19
 import Mathlib.Order.MinMax
 import Mathlib.Tactic.Order
+import Mathlib.Tactic.SplitIfs
 /-! Helper lemmas for C19: the invariant of the step-communication machine and the single-call lemma
 `stepTo_post`.  The property theorems are in `SimbodyProofs/C19.lean`. -/
 namespace C19
@@ -60,6 +61,7 @@ structure Post (o : Opts T) (report sched t0 a0 : T) (st : Status) (s' : St T) :
   report_exact : st = .reachedReportTime → s'.time = min report o.finalTime
   sched_exact : st = .reachedScheduledEvent → s'.time = sched ∧ s'.tAdv = sched
   eos : st = .endOfSimulation → s'.time = o.finalTime ∧ s'.scs = .finalReturned ∧ s'.startCI = false
+      ∧ s'.useInterp = false
   trigger : st = .reachedEventTrigger →
       s'.scs = .returnedWithEvent ∧ s'.time = s'.tLow ∧ s'.tAdv = s'.tHigh ∧ s'.tLow < s'.tHigh
       ∧ ¬ (s'.tLow < sched ∧ sched < s'.tHigh) ∧ ¬ (s'.tLow < o.finalTime ∧ o.finalTime < s'.tHigh)
@@ -206,5 +208,241 @@ theorem phase_refuse {o : Opts T} {report sched : T} {taken : Nat} {s s' : St T}
         · split at e
           · cases e
           · split at e <;> cases e
+
+
+theorem ansOK_spec {o : Opts T} {report sched : T} {s : St T} {a : Ans T} (h : ansOK o report sched s a = true) :
+    s.tAdv < a.t1 ∧ a.t1 ≤ sched ∧ a.t1 ≤ o.finalTime ∧
+    (a.event = true → s.tAdv ≤ a.tLow ∧ a.tLow < a.t1 ∧ ¬ (a.tLow < report ∧ report < a.t1)) := by
+  unfold ansOK at h
+  have hm := tMaxOf_le o report sched
+  simp only [Bool.and_eq_true, Bool.or_eq_true, decide_eq_true_eq, Bool.not_eq_true', Bool.and_eq_false_iff,
+    decide_eq_false_iff_not] at h
+  obtain ⟨⟨h1, h2⟩, h3⟩ := h
+  refine ⟨h1, le_trans h2 hm.1, le_trans h2 hm.2, ?_⟩
+  intro he
+  rcases h3 with h3 | h3
+  · simp [he] at h3
+  · obtain ⟨⟨h4, h5⟩, h6⟩ := h3
+    refine ⟨h4, h5, ?_⟩
+    rintro ⟨q1, q2⟩
+    rcases h6 with h6 | h6 <;> exact h6 (by assumption)
+
+/-- the two early returns `getState().getTime() == reportTime / scheduledEventTime` -/
+theorem early_report {o : Opts T} {report sched t0 a0 : T} {s : St T}
+    (h : Head o report sched t0 a0 s) (hu : s.useInterp = false) (h1 : s.scs ≠ .completedWithEvent)
+    (h2 : s.scs ≠ .finalReturned) (e : s.tAdv = report) :
+    Post o report sched t0 a0 .reachedReportTime s := by
+  obtain ⟨g1, g2, g3, g4, g5, g6, g7, g8, g9, g10, g11, g12, g13⟩ := h
+  post_split <;> crunch
+
+theorem early_sched {o : Opts T} {report sched t0 a0 : T} {s : St T}
+    (h : Head o report sched t0 a0 s) (hu : s.useInterp = false) (h1 : s.scs ≠ .completedWithEvent)
+    (h2 : s.scs ≠ .finalReturned) (e : s.tAdv = sched) (hr : s.tAdv ≤ report) :
+    Post o report sched t0 a0 .reachedScheduledEvent s := by
+  obtain ⟨g1, g2, g3, g4, g5, g6, g7, g8, g9, g10, g11, g12, g13⟩ := h
+  post_split <;> crunch
+
+theorem head_clear_interp {o : Opts T} {report sched t0 a0 : T} {s : St T}
+    (h : Head o report sched t0 a0 s) : Head o report sched t0 a0 { s with useInterp := false } := by
+  obtain ⟨g1, g2, g3, g4, g5, g6, g7, g8, g9, g10, g11, g12, g13⟩ := h
+  exact ⟨g1, g2, g3, fun _ => rfl, g5, g6, g7, g8, g9, g10, g11, g12, g13⟩
+
+theorem head_step {o : Opts T} {report sched t0 a0 : T} {s : St T} {a : Ans T}
+    (h : Head o report sched t0 a0 s) (hr : s.tAdv ≤ report) (hne : s.tAdv ≠ report)
+    (ha : ansOK o report sched s a = true) :
+    Head o report sched t0 a0 (applyStep report s a) := by
+  obtain ⟨g1, g2, g3, g4, g5, g6, g7, g8, g9, g10, g11, g12, g13⟩ := h
+  obtain ⟨a1, a2, a3, a4⟩ := ansOK_spec ha
+  have hlt : s.tAdv < report := lt_of_le_of_ne hr hne
+  unfold applyStep
+  cases hev : a.event
+  · refine ⟨?_, ?_, ?_, ?_, ?_, ?_, ?_, ?_, ?_, ?_, ?_, ?_, ?_⟩ <;> simp_all <;> order
+  · have a5 := a4 hev
+    refine ⟨?_, ?_, ?_, ?_, ?_, ?_, ?_, ?_, ?_, ?_, ?_, ?_, ?_⟩ <;> simp_all <;> order
+
+theorem loop_post {o : Opts T} {report sched t0 a0 : T} :
+    ∀ (orc : List (Ans T)) (taken : Nat) (s : St T) {st : Status} {s' : St T} {rest : List (Ans T)},
+      Head o report sched t0 a0 s → loop o report sched orc taken s = .ret st s' rest →
+      Post o report sched t0 a0 st s' := by
+  intro orc
+  induction orc with
+  | nil =>
+    intro taken s st s' rest h e
+    unfold loop at e
+    split at e
+    · cases e
+    · rename_i hp
+      injection e with e1 e2 e3; subst e1; subst e2
+      exact phase_ret h hp
+    · rename_i s2 hp
+      obtain ⟨p1, p2, p3, p4, p5⟩ := phase_adv h hp
+      have h2 := head_clear_interp h
+      rw [← p1] at h2
+      have hu : s2.useInterp = false := by rw [p1]
+      have ha : s2.tAdv = s.tAdv := by rw [p1]
+      have hs : s2.scs = s.scs := by rw [p1]
+      have ht : s2.time = s2.tAdv := by simp [St.time, hu]
+      split at e
+      · rename_i q
+        injection e with e1 e2 e3; subst e1; subst e2
+        exact early_report h2 hu (by rw [hs]; exact p4) (by rw [hs]; exact p5) (by rw [← ht]; exact q)
+      · split at e
+        · rename_i q
+          injection e with e1 e2 e3; subst e1; subst e2
+          exact early_sched h2 hu (by rw [hs]; exact p4) (by rw [hs]; exact p5) (by rw [← ht]; exact q) (by rw [ha]; exact p2)
+        · cases e
+  | cons a rest0 ih =>
+    intro taken s st s' rest h e
+    unfold loop at e
+    split at e
+    · cases e
+    · rename_i hp
+      injection e with e1 e2 e3; subst e1; subst e2
+      exact phase_ret h hp
+    · rename_i s2 hp
+      obtain ⟨p1, p2, p3, p4, p5⟩ := phase_adv h hp
+      have h2 := head_clear_interp h
+      rw [← p1] at h2
+      have hu : s2.useInterp = false := by rw [p1]
+      have ha : s2.tAdv = s.tAdv := by rw [p1]
+      have hs : s2.scs = s.scs := by rw [p1]
+      have ht : s2.time = s2.tAdv := by simp [St.time, hu]
+      split at e
+      · rename_i q
+        injection e with e1 e2 e3; subst e1; subst e2
+        exact early_report h2 hu (by rw [hs]; exact p4) (by rw [hs]; exact p5) (by rw [← ht]; exact q)
+      · rename_i q1
+        split at e
+        · rename_i q
+          injection e with e1 e2 e3; subst e1; subst e2
+          exact early_sched h2 hu (by rw [hs]; exact p4) (by rw [hs]; exact p5) (by rw [← ht]; exact q) (by rw [ha]; exact p2)
+        · split at e
+          · rename_i hx; cases hx
+          · rename_i a' r' hx
+            injection hx with hx1 hx2; subst hx1; subst hx2
+            split at e
+            · rename_i hok
+              exact ih (taken + 1) _ (head_step h2 (by rw [ha]; exact p2) (by rw [← ht]; exact q1) hok) e
+            · cases e
+
+/-- caller obligations as propositions -/
+structure Legal (report sched : T) (s : St T) : Prop where
+  report_ge : s.time ≤ report
+  sched_ge : s.time ≤ sched
+  sched_adv : s.tAdv ≤ sched
+
+theorem head_of_inv {o : Opts T} {report sched : T} {s : St T} (hi : Inv o s) (hl : Legal report sched s)
+    (hn : s.startCI = false) (hf : s.scs ≠ .finalReturned) : Head o report sched s.time s.tAdv s := by
+  obtain ⟨i1, i2, i3, i4, i5, i6, i7⟩ := hi
+  obtain ⟨l1, l2, l3⟩ := hl
+  have i5' := i5 hf
+  refine ⟨i1, i2, i3, i6, l1, l2, ?_, l3, ?_, ?_, ?_, le_refl _, hn⟩
+  · unfold St.time; split
+    · rename_i hu; exact (i5' hu).2
+    · exact le_refl _
+  · unfold St.time at l1; split at l1
+    · rename_i hu; exact le_trans (i5' hu).1 l1
+    · exact le_trans i1 l1
+  · intro hs
+    obtain ⟨q1, q2⟩ := i4 hs
+    simp [St.time, q1, q2]
+  · intro hs
+    have := i6 hs
+    simpa [St.time, this] using l1
+
+/-- THE single-call lemma: every normal return of `stepTo` from a state satisfying the invariant, on a legal
+request, with ANY oracle list, satisfies `Post` (which re-establishes the invariant). -/
+theorem stepTo_post {o : Opts T} {report sched : T} {orc rest : List (Ans T)} {s s' : St T} {st : Status}
+    (hi : Inv o s) (hl : Legal report sched s) (e : stepTo o report sched orc s = .ret st s' rest) :
+    Post o report sched s.time s.tAdv st s' := by
+  unfold stepTo at e
+  split at e
+  · rename_i hc
+    injection e with e1 e2 e3; subst e1; subst e2
+    obtain ⟨i1, i2, i3, i4, i5, i6, i7⟩ := hi
+    obtain ⟨l1, l2, l3⟩ := hl
+    have hu := i7 hc
+    post_split <;> crunch
+  · rename_i hc
+    have hc' : s.startCI = false := by simpa using hc
+    by_cases hf : s.scs = .finalReturned
+    · exfalso
+      cases orc <;> (unfold loop phase at e; simp [hf] at e)
+    · exact loop_post orc 0 s (head_of_inv hi hl hc' hf) e
+
+/-- once `FinalTimeHasBeenReturned` is the status (and no handler restarted a continuous interval) every
+`stepTo` is refused, whatever the request and the oracle, and the status stays final. -/
+theorem stepTo_refused {o : Opts T} (report sched : T) (orc : List (Ans T)) {s : St T}
+    (hf : s.scs = .finalReturned) (hc : s.startCI = false) :
+    stepTo o report sched orc s = .refused { s with tPrev := s.tAdv } := by
+  unfold stepTo
+  rw [if_neg (by simp [hc])]
+  cases orc <;> (unfold loop phase; simp [hf])
+
+theorem inv_init {o : Opts T} {t0 : T} (h : t0 ≤ o.finalTime) : Inv o (init t0) := by
+  refine ⟨?_, ?_, ?_, ?_, ?_, ?_, ?_⟩ <;> simp [init, h]
+
+theorem inv_reinit {o : Opts T} {s : St T} (lowered terminate : Bool) (hi : Inv o s) (hok : reinitOK s = true) :
+    Inv o (reinit lowered terminate s) := by
+  obtain ⟨i1, i2, i3, i4, i5, i6, i7⟩ := hi
+  have hne : s.scs ≠ .completedWithEvent := by
+    intro hs; simp [reinitOK, hs] at hok
+  unfold reinit
+  cases lowered <;> cases terminate <;> refine ⟨?_, ?_, ?_, ?_, ?_, ?_, ?_⟩ <;> simp_all <;> grind
+
+/-- `tRep` (ghost) is the report time of the call as soon as the call has taken an internal step -/
+theorem loop_tRep {o : Opts T} {report sched : T} :
+    ∀ (orc : List (Ans T)) (taken : Nat) (s : St T) {st : Status} {s' : St T} {rest : List (Ans T)},
+      loop o report sched orc taken s = .ret st s' rest → (rest = orc ∧ s'.tRep = s.tRep) ∨ s'.tRep = report := by
+  have hphase : ∀ (taken : Nat) (s s2 : St T), (∀ st, phase o report sched taken s = .ret st s2 → s2.tRep = s.tRep)
+      ∧ (phase o report sched taken s = .advance s2 → s2.tRep = s.tRep) := by
+    intro taken s s2
+    constructor
+    · intro st e
+      unfold phase completedCase at e
+      cases hs : s.scs <;> simp only [hs] at e <;> (try split_ifs at e) <;>
+        first | (injection e with e1 e2; subst e2; rfl) | cases e
+    · intro e
+      unfold phase completedCase at e
+      cases hs : s.scs <;> simp only [hs] at e <;> (try split_ifs at e) <;>
+        first | (injection e with e1; subst e1; rfl) | cases e
+  intro orc
+  induction orc with
+  | nil =>
+    intro taken s st s' rest e
+    unfold loop at e
+    split at e
+    · cases e
+    · rename_i hp; injection e with e1 e2 e3; subst e1; subst e2; subst e3
+      exact Or.inl ⟨rfl, (hphase taken s _).1 _ hp⟩
+    · rename_i s2 hp
+      have := (hphase taken s s2).2 hp
+      split at e
+      · injection e with e1 e2 e3; subst e2; subst e3; exact Or.inl ⟨rfl, this⟩
+      · split at e
+        · injection e with e1 e2 e3; subst e2; subst e3; exact Or.inl ⟨rfl, this⟩
+        · cases e
+  | cons a rest0 ih =>
+    intro taken s st s' rest e
+    unfold loop at e
+    split at e
+    · cases e
+    · rename_i hp; injection e with e1 e2 e3; subst e1; subst e2; subst e3
+      exact Or.inl ⟨rfl, (hphase taken s _).1 _ hp⟩
+    · rename_i s2 hp
+      have := (hphase taken s s2).2 hp
+      split at e
+      · injection e with e1 e2 e3; subst e2; subst e3; exact Or.inl ⟨rfl, this⟩
+      · split at e
+        · injection e with e1 e2 e3; subst e2; subst e3; exact Or.inl ⟨rfl, this⟩
+        · split at e
+          · rename_i hx; cases hx
+          · rename_i a' r' hx
+            injection hx with hx1 hx2; subst hx1; subst hx2
+            split at e
+            · rcases ih (taken + 1) _ e with ⟨_, q⟩ | q
+              · right; rw [q]; rfl
+              · exact Or.inr q
+            · cases e
 
 end C19
